@@ -393,7 +393,6 @@ CheckCb(tk, e, tk2) ==
     \cup V0(PlanActsOK(pn, e.acts, 1), "C10", "append / remove result disagrees with the exact task capacity")
     \cup V0(e.pfl = 1, "C10", "the plan's iterators, first(), last() and emptiness test (mutable and const forms) do not describe one sequence")
     \cup V0(e.pfl2 = 1, "C10", "a read-only view of the plan obtained before the plan was edited no longer describes the plan (iteration, first(), last(), emptiness)")
-    \cup V(tk.op = "load" /\ tk.oa % 2 = 1 => e.req = NoT, "C06", "a request discarded by load() is still reported as waiting to the callbacks load() runs")
     \cup V(CtrlKind(e.m) >= 1 /\ ~step /\ tk.incall /\ tk.dpos > 0 /\ ~(IsPlanCb(tk.dm) /\ tk.dpos = Len(DeclOrder(tk.dm, tk.ds))) /\ HasPlanAct(tk.lastacts)
              => pn = pb,
            "C10", "the plan seen after plan edits is not the sequence of tasks appended and not removed")
